@@ -677,6 +677,21 @@ fn op_verify<H: HashChain + 'static>(d: &mut Driver, cmd: &Value) {
             ),
             None => (Ok(Err("na".to_string())), Ok(Err("na".to_string()))),
         };
+    // entry point 6: a VerifyingKey made from a VALID key ("pk_base") whose public `bytes` field the caller then overwrote
+    // with this event's key bytes: verification parses what the object holds NOW
+    let r_poked: Result<Result<(), String>, String> = match cmd.get("pk_base") {
+        None => Ok(Err("na".to_string())),
+        Some(b) => {
+            let base = d.bytes(b);
+            guarded(|| {
+                let mut vk = VerifyingKey::<H>::from_bytes(&base).map_err(|_| "na".to_string())?;
+                let nb = tinyvec::ArrayVec::try_from(&pk[..]).map_err(|_| "na".to_string())?;
+                vk.bytes = nb;
+                let s = VerifierSignature::from_ref(&sig).map_err(|_| "na".to_string())?;
+                vk.verify(&msg, &s).map_err(|_| "err".to_string())
+            })
+        }
+    };
     let show = |r: &Result<Result<(), String>, String>| -> String {
         match r {
             Ok(Ok(())) => "ok".into(),
@@ -697,8 +712,9 @@ fn op_verify<H: HashChain + 'static>(d: &mut Driver, cmd: &Value) {
     ev.insert("vk_ref".into(), json!(show(&r_vk_ref)));
     ev.insert("vk_reused_sig".into(), json!(show(&r_re_sig)));
     ev.insert("vk_reused_ref".into(), json!(show(&r_re_ref)));
+    ev.insert("vk_poked".into(), json!(show(&r_poked)));
     let mut panics = Vec::new();
-    for r in [&r_fn, &r_vk, &r_sig, &r_vk_sig, &r_vk_ref, &r_re_sig, &r_re_ref] {
+    for r in [&r_fn, &r_vk, &r_sig, &r_vk_sig, &r_vk_ref, &r_re_sig, &r_re_ref, &r_poked] {
         if let Err(m) = r {
             panics.push(m.clone());
         }
